@@ -52,6 +52,10 @@ CLAIMED["C18"] = dict(engine="clisim", design="DESIGN.md §5 C18",
    text="Seeded operation sequences evolve a migration directory (files derived by `migrate diff` and hand-written destructive/additive/temporary-object forms); `migrate lint --latest N` of the real CLI is compared with a reference model of which tables and non-virtual columns existed before each file: every destructive file gets DS102/DS103 on the causing statement and a failing exit status, additive and temporary-object files get none.",
    note="No fault or schedule dimension exists in this property; this check uses the operation-sequence / reference-model half of the technique only. SQLite only.",
    technique="deterministic simulation (operation sequences vs reference model, no fault dimension): seeded directory histories against the real CLI, tape shrinking + exact replay")
+CLAIMED["C20"] = dict(engine="detsim", design="DESIGN.md §5 C20, §3.3",
+   text="Seeded schedules over the sources of nondeterminism the outputs could depend on: map iteration order (made a seam by rewriting the map-range sites of a scratch copy of the repository; one seed fixes the order at every seamed site), declaration order of tables/indexes/foreign keys/checks, tape-scheduled interleaving of independent operations at call boundaries, repetition in one process and in fresh processes; oracle = byte equality of plans, formatted files, HCL and directory sums (for declaration order: equal statement content modulo clause order, and on SQLite the same resulting catalog).",
+   note="31 of 35 map-range sites are seamed (the rest are listed in the evidence); third-party dependencies are outside the seam; goroutine-level interleaving inside CPU-only code is not owned by the simulator.",
+   technique="deterministic simulation: seeded map-order / declaration-order / interleaving schedules over a build-time seam, equality oracle, tape shrinking + exact replay")
 
 NOT_BUILT = {
  "C01": "not built yet in this tree (planned claim, DESIGN \u00a75); listed here so that every unclaimed property has an entry",
